@@ -639,3 +639,46 @@ def _go_psb(E, it, pkg):
         ok = len(log) == 1 and log[0][0] == ("enc" if enc else "dec") and log[0][1][0] is cp and log[0][1][1] is di and log[0][1][2] is acc
         E.oblige("post:dispatch[%s]" % ("encode" if enc else "decode"),
                  z3.And(z3.BoolVal(bool(ok)), log[0][1][3].term() == j.term(), log[0][1][4].term() == c.term()) if ok else z3.BoolVal(False))
+
+
+@goproof("go:processBaseType", "processBaseType", ["C19", "C14", "C07"])
+def _go_pbt(E, it, pkg):
+    """loop invariant 0 <= j <= nbits and ctx.i = i0 + j: every iteration hands ONE chunk (j, c) to processSingleByte with the same ctx,
+    di and accessor at cursor i0 + j, where c = min(nbits - j, 8 - j%8, 8 - i%8) >= 1 - so the chunk lies inside one value byte and one
+    buffer byte (the precondition of encode/decodeSingleByte) and the chunks tile [0, nbits) consecutively; afterwards ctx.i = i0 + nbits
+    (processSingleByte is replaced by its contract: it does not move the cursor)"""
+    nb = E.fresh("nbits", B64)
+    E.assume(z3.And(nb >= 1, nb <= 65535))
+    ctx, i0 = _ctx(E, it, pkg, True)
+    calls = []
+    it.helper_contracts["processsinglebyte"] = lambda I, a: (calls.append((a, _ci(ctx))), [])[1]
+    acc = GStub("Accessor", {})
+    di = it.call_func(pkg, pkg.funcs["NewDataIndexer"], [1])[0]
+    cp = GPtr(ctx)
+    jt = lambda e: e["j"][0].term()
+    head = {}
+
+    def pre(e):
+        ctx.f["i"] = GInt("int", 64, True, E.fresh("ctx_i", B64))
+        calls.clear()
+        head["j"] = jt(e)
+    cut = GoLoopCut(inv=lambda e: [("range", z3.And(jt(e) >= 0, jt(e) <= nb)), ("cursor", _ci(ctx) == i0 + jt(e))],
+                    variant=lambda e: nb - jt(e), havoc=["j"], pre_assume=pre)
+    it.loop_cuts[("processBaseType", 1)] = cut
+    try:
+        it.call_func(pkg, pkg.funcs["processBaseType"], [GInt("int", 64, True, nb), cp, di, acc])
+    except EN.StopPath:
+        j0 = head.get("j")
+        ok = j0 is not None and len(calls) == 1 and calls[0][0][0] is cp and calls[0][0][1] is di and calls[0][0][2] is acc
+        if ok:
+            a, at = calls[0]
+            jc, c = a[3].term(), a[4].term()
+            i_ = i0 + j0
+            m1, m2, m3 = nb - j0, 8 - z3.URem(j0, 8), 8 - z3.URem(i_, 8)
+            mn = z3.If(m1 < m2, m1, m2)
+            mn = z3.If(mn < m3, mn, m3)
+            E.oblige("post:chunk", z3.And(jc == j0, at == i_, c == mn, c >= 1, z3.URem(j0, 8) + c <= 8, z3.URem(i_, 8) + c <= 8, j0 + c <= nb))
+        else:
+            E.oblige("post:chunk", z3.BoolVal(False))
+        raise
+    E.oblige("post:cursor", _ci(ctx) == i0 + nb)
